@@ -22,11 +22,12 @@ def run(chk):
                'element covers scalar / 1-d / 2-d broadcast and per-pixel operands')
     chk.assume('no overflow/underflow over the stated magnitude range 1e-9..1e9 (SI)')
     clauses = ('formula', 'unit', 'dtype', 'relerr', 'frame', 'canary')
-    for kname, spec in K.KERNELS.items():
-        names = list(spec['args'])
+    def kernel_contract(chk, kname):
+        names = list(K.KERNELS[kname]['args'])
         for combo in itertools.product((F64, F32), repeat=len(names)):
-            dts = dict(zip(names, combo))
-            K.run_kernel(chk, 'C01', kname, dts, clauses)
+            K.run_kernel(chk, 'C01', kname, dict(zip(names, combo)), clauses)
+    for kname in K.KERNELS:
+        chk.section(f'{kname}: float dtypes x symbolic units', kernel_contract, kname)
     # operand shapes: the proofs are element-generic, which is only sound if the code does not branch on the shape of an
     # operand -- so every kernel is also run with 1-d, 2-d broadcast and per-pixel operand shapes
     shapes = {
@@ -34,13 +35,18 @@ def run(chk):
         '2-d data, per-pixel geometry': lambda names: {n: (('row', 'tof') if i == 0 else ('row',)) for i, n in enumerate(names)},
         'scalar geometry, 1-d data': lambda names: {n: (('tof',) if i == 0 else ()) for i, n in enumerate(names)},
     }
-    for kname, spec in K.KERNELS.items():
-        names = list(spec['args'])
+    def shape_contract(chk, kname):
+        names = list(K.KERNELS[kname]['args'])
         for sname, f in shapes.items():
             K.run_kernel(chk, 'C01', kname, {n: F64 for n in names}, ('formula', 'unit', 'dtype'), tag=f'shape:{sname}', dims_map=f(names))
+    for kname in K.KERNELS:
+        chk.section(f'{kname}: operand shapes', shape_contract, kname)
     lemmas(chk)
     graph_table(chk)
     composition_error(chk)
+    total, cells, fails = K.grid_check(chk, per_kernel=None)
+    chk.bounded_check('kernel-grid', 'real elastic kernels vs mpmath reference (40 digits): value within 1e-11 (1e-5 with float32 operands), '
+                      'documented unit, dtype contract', f'all {cells} cells of the unit x dtype grid, one random value per cell', total, fails)
 
 
 def lemmas(chk):
@@ -134,4 +140,6 @@ def composition_error(chk):
 
 
 def replay(rec):
+    if '/bounded/kernel-grid/' in rec['obligation']:
+        return K.replay_grid(rec.get('meta', {}).get('replay') or rec.get('model') or {})
     return K.replay_kernel(rec)
